@@ -19,10 +19,38 @@ PROPS = {
         "level_note": "claimed values come from ark-poly's evaluators (trusted); alphabets and bounds as listed in the evidence scopes",
         "technique": "explicit-state bounded exhaustive enumeration of configurations on the real code (grid explorer E1)",
     },
+    "C02": {
+        "rule": "E3 fault explorer over accepting C01 transcripts: every position x delta in {+1,-1,+r1} for values, every other alphabet point, every replacement commitment (other set members, commit(p+1)); entry points check, batch_check, check_combinations (trivial LCs), KZG10::{check,batch_check}, MultilinearPC::check, streaming verify; statements that stay true are classified and skipped; distinct = (scheme, entry, operator, decision class)",
+        "assumptions": TRUSTED,
+        "require": {"classes": ["source-accepted", "fault-reject"], "dims": {"scheme": ALL_SCHEMES + ["KZG", "MLP", "STR"]}},
+        "level_text": "bounded exhaustive enumeration of the complete single-fault neighbourhood (statement side) of every accepting transcript in the scope; each faulted statement is first classified true/false by the reference evaluator and every false one must be non-accepted by the real verifier",
+        "design_ref": "DESIGN.md section 4 C02",
+        "level_note": "deltas and replacement points are alphabet members; the cryptographic 'for every delta' is covered for the listed alphabet only",
+        "technique": "explicit-state fault enumeration (E3) over real transcripts with a reference evaluator as oracle",
+    },
+    "C03": {
+        "rule": "E3 attack catalogue on an honest commitment with a false claim: prover run on (q,state_q) against commitment(p) for every ordered pair, proof replay across points/commitments, every proof component x replacement alphabet {identity, generator, generic, +G/+1, other proof's component}, shape mutations (list lengths 0..n+1, IPA rounds +-1, PST/Hyrax/linear-code vectors stretched/shortened/rotated, foreign Merkle paths); distinct = (scheme, entry, operator class, decision class)",
+        "assumptions": TRUSTED + ["the computational-hardness reading of the property is not decidable by enumeration; only the catalogue the property names is decided"],
+        "require": {"classes": ["source-accepted", "attack-reject"], "dims": {"scheme": ALL_SCHEMES}},
+        "level_text": "bounded exhaustive enumeration of the named attack catalogue against the real verifiers: every catalogue entry at every position it applies to, each paired with a false claim, must be non-accepted",
+        "design_ref": "DESIGN.md section 4 C03",
+        "level_note": "replacement elements are alphabet members; adversaries outside the catalogue are out of reach of any enumeration",
+        "technique": "explicit-state fault/attack enumeration (E3) on real transcripts",
+    },
+    "C05": {
+        "rule": "for k x m query grids over the slice-B set: all 2^(km) subsets of claims made false, all ordered cancelling pairs (+d,-d) for d in {1,r1}, every proof-list permutation / truncation / duplication / overwrite / surplus and per-proof shape mutation, each with true and false claims, verifier RNG in A_S; oracle = per-point checks run in label order on one sponge, AND-ed; KZG10::batch_check and streaming verify_multi_points likewise; distinct = (scheme, operator class, AND decision, batch decision class)",
+        "assumptions": TRUSTED,
+        "require": {"classes": ["and-accepts", "and-rejects", "batch-accept"], "dims": {"scheme": ALL_SCHEMES + ["KZG", "STR"]}},
+        "level_text": "differential bounded exhaustive exploration: for every edited batch the real batch verifier's decision is compared, in both directions, with the conjunction of the real individual verifier's decisions on the same claims",
+        "design_ref": "DESIGN.md section 4 C05",
+        "level_note": "the individual verifier is the reference here (its own correctness is C02/C03/C10's business); streaming verify_multi_points takes its batching challenge from the caller, negative cases use a generic challenge",
+        "technique": "explicit-state differential enumeration of batch edits on the real verifiers",
+    },
 }
 
 HOOK_COMMITS = ["512e10f"]
 
 _PENDING = "check not built yet in this round of the framework (planned, see DESIGN.md section 4)"
 NOT_APPLICABLE = {("C%02d" % i): _PENDING for i in range(1, 20)}
+
 
